@@ -66,6 +66,9 @@ pub struct JResult {
     pub dev: (u32, u32, u32),
     #[serde(default)]
     pub max_load: (u64, Vec<u16>),
+    /// the worker gave an execution up in the middle of a panic and must be replaced
+    #[serde(default)]
+    pub tainted: bool,
     /// probe only: alternatives at each choice point beyond the prefix
     pub ns: Vec<u16>,
     /// probe only: the recorded call history of that execution
@@ -90,6 +93,7 @@ impl JResult {
             max_nodes: r.max_nodes,
             dev: r.max_deviations,
             max_load: r.max_load.clone(),
+            tainted: false,
             ns: Vec::new(),
             history: Vec::new(),
         }
@@ -159,6 +163,14 @@ impl Merged {
     }
 }
 
+fn c_of(k: &TaskKind) -> &'static str {
+    match k {
+        TaskKind::Probe => "P",
+        TaskKind::Explore => "X",
+        TaskKind::Verify => "V",
+    }
+}
+
 fn prefix_to_string(p: &[u16]) -> String {
     p.iter().map(|c| c.to_string()).collect::<Vec<_>>().join(",")
 }
@@ -205,11 +217,36 @@ pub fn worker_main(inst: &Inst, cfg: &rt::Config, deciding: Option<&str>, known:
                 finish_violation(inst, cfg, &mut j);
                 j
             }
+            "V" => {
+                // verification replay of one choice vector, with a trace
+                let res = runner::replay_local(inst, cfg, &prefix);
+                let mut j = JResult::default();
+                j.executions = 1;
+                if let Some(v) = &res.violation {
+                    j.deciding = Some(JViol {
+                        instance: inst.name.clone(),
+                        property: v.property.clone(),
+                        oracle: v.oracle.clone(),
+                        message: v.message.clone(),
+                        choices: res.choices.clone(),
+                        cfg: runner::cfg_string(cfg),
+                        trace: res.trace.clone(),
+                        deterministic: false,
+                    });
+                }
+                j
+            }
             _ => continue,
         };
+        let mut reply = reply;
+        reply.tainted = rt::tainted();
         let mut out = stdout.lock();
         let _ = writeln!(out, "@@ {}", serde_json::to_string(&reply).unwrap());
         let _ = out.flush();
+        if reply.tainted {
+            // see rt::tainted(): this process must not run further executions
+            std::process::exit(0);
+        }
     }
 }
 
@@ -219,24 +256,48 @@ pub fn normalize_trace(t: &[String]) -> Vec<String> {
     let mut ids: std::collections::HashMap<String, usize> = std::collections::HashMap::new();
     t.iter()
         .map(|l| {
+            let b: Vec<char> = l.chars().collect();
             let mut out = String::new();
-            let mut rest = l.as_str();
-            while let Some(p) = rest.find("0x") {
-                out.push_str(&rest[..p]);
-                let tail = &rest[p + 2..];
-                let n = tail.chars().take_while(|c| c.is_ascii_hexdigit()).count();
-                let hex = &tail[..n];
-                if n > 4 {
-                    let k = ids.len();
-                    let id = *ids.entry(hex.to_string()).or_insert(k);
-                    out.push_str(&format!("@{}", id));
-                } else {
-                    out.push_str("0x");
-                    out.push_str(hex);
+            let mut i = 0;
+            while i < b.len() {
+                // hex numbers with more than 4 digits
+                if b[i] == '0' && i + 1 < b.len() && b[i + 1] == 'x' {
+                    let mut j = i + 2;
+                    while j < b.len() && b[j].is_ascii_hexdigit() {
+                        j += 1;
+                    }
+                    let tok: String = b[i..j].iter().collect();
+                    if j - (i + 2) > 4 {
+                        let k = ids.len();
+                        let id = *ids.entry(tok.to_lowercase()).or_insert(k);
+                        out.push_str(&format!("@{}", id));
+                    } else {
+                        out.push_str(&tok);
+                    }
+                    i = j;
+                    continue;
                 }
-                rest = &tail[n..];
+                // decimal numbers with 9 or more digits (addresses printed by assertions)
+                if b[i].is_ascii_digit() && (i == 0 || !b[i - 1].is_ascii_alphanumeric()) {
+                    let mut j = i;
+                    while j < b.len() && b[j].is_ascii_digit() {
+                        j += 1;
+                    }
+                    let tok: String = b[i..j].iter().collect();
+                    if j - i >= 9 {
+                        let hex = tok.parse::<u128>().map(|v| format!("0x{:x}", v)).unwrap_or(tok.clone());
+                        let k = ids.len();
+                        let id = *ids.entry(hex).or_insert(k);
+                        out.push_str(&format!("@{}", id));
+                    } else {
+                        out.push_str(&tok);
+                    }
+                    i = j;
+                    continue;
+                }
+                out.push(b[i]);
+                i += 1;
             }
-            out.push_str(rest);
             out
         })
         .collect()
@@ -244,12 +305,17 @@ pub fn normalize_trace(t: &[String]) -> Vec<String> {
 
 /// Before a violation is reported it is replayed twice with a trace; the traces must agree.
 fn finish_violation(inst: &Inst, cfg: &rt::Config, j: &mut JResult) {
-    let mut fix = |v: &mut JViol| {
+    if rt::tainted() {
+        // replays would panic again and abort this process; the master verifies with fresh workers
+        return;
+    }
+    let fix = |v: &mut JViol| {
         let a = runner::replay_local(inst, cfg, &v.choices);
         let b = runner::replay_local(inst, cfg, &v.choices);
         let same = normalize_trace(&a.trace) == normalize_trace(&b.trace)
-            && a.violation.as_ref().map(|x| (&x.property, &x.message)) == b.violation.as_ref().map(|x| (&x.property, &x.message))
-            && a.violation.as_ref().map(|x| x.message.clone()) == Some(v.message.clone());
+            && a.violation.as_ref().map(|x| (x.property.clone(), normalize_trace(&[x.message.clone()])))
+                == b.violation.as_ref().map(|x| (x.property.clone(), normalize_trace(&[x.message.clone()])))
+            && a.violation.as_ref().map(|x| normalize_trace(&[x.message.clone()])) == Some(normalize_trace(&[v.message.clone()]));
         v.deterministic = same;
         v.trace = a.trace;
     };
@@ -271,6 +337,7 @@ fn finish_violation(inst: &Inst, cfg: &rt::Config, j: &mut JResult) {
 enum TaskKind {
     Probe,
     Explore,
+    Verify,
 }
 
 #[derive(Clone, Debug)]
@@ -321,6 +388,7 @@ fn request(w: &mut WorkerProc, t: &Task) -> Result<JResult, String> {
     let c = match t.kind {
         TaskKind::Probe => "P",
         TaskKind::Explore => "X",
+        TaskKind::Verify => "V",
     };
     writeln!(w.stdin, "{}{}", c, prefix_to_string(&t.prefix)).map_err(|e| format!("worker pipe: {}", e))?;
     w.stdin.flush().map_err(|e| format!("worker pipe: {}", e))?;
@@ -470,7 +538,48 @@ pub fn run_sharded(inst_name: &str, cfg: &rt::Config, opts: &ShardOpts) -> Merge
                 }
                 let mut new_tasks = Vec::new();
                 match res {
-                    Ok(r) => {
+                    Ok(mut r) => {
+                        if r.tainted {
+                            // The worker is gone. Violations it found were not replayed yet: do
+                            // that with fresh one-shot workers (each replay panics again).
+                            proc = None;
+                            let verify = |v: &mut JViol| {
+                                let mut traces = Vec::new();
+                                for _ in 0..2 {
+                                    if let Ok(mut w) = spawn_worker(&bin, &inst_name, &cfg, deciding.as_deref(), known_file.as_deref()) {
+                                        let t = Task { kind: TaskKind::Verify, prefix: v.choices.clone(), level: 0 };
+                                        if let Ok(rr) = request(&mut w, &t) {
+                                            if let Some(d) = rr.deciding {
+                                                traces.push((normalize_trace(&d.trace), normalize_trace(&[d.message.clone()]), d.trace));
+                                            }
+                                        }
+                                        let _ = w.child.kill();
+                                        let _ = w.child.wait();
+                                    }
+                                }
+                                if traces.len() == 2 && traces[0].0 == traces[1].0 && traces[0].1 == traces[1].1 && traces[0].1 == normalize_trace(&[v.message.clone()]) {
+                                    v.deterministic = true;
+                                    v.trace = traces.pop().unwrap().2;
+                                }
+                            };
+                            if let Some(v) = r.deciding.as_mut() {
+                                verify(v);
+                            }
+                            for (_, v) in r.known_hits.iter_mut() {
+                                verify(v);
+                            }
+                            if r.deciding.is_none() {
+                                // a panic that does not decide this property: the rest of this subtree
+                                // cannot be explored by the dead worker
+                                shared.errors.lock().unwrap().push(format!(
+                                    "an execution of {} panicked (other property: {:?}); the subtree {}{} was not completed",
+                                    inst_name,
+                                    r.others.keys().collect::<Vec<_>>(),
+                                    c_of(&task.kind),
+                                    prefix_to_string(&task.prefix)
+                                ));
+                            }
+                        }
                         if let TaskKind::Probe = task.kind {
                             for (j, &n) in r.ns.iter().enumerate() {
                                 for k in 1..n {
